@@ -70,6 +70,27 @@ int main() {
   dump_const("encoding_fpu_first", InstDB::kEncodingFpuOp);    // x87: opcodes are rebuilt from constants (two-byte FPU form), not looked up through mm
   dump_const("encoding_ext_first", InstDB::kEncodingExtRm);
   dump_const("encoding_vex_first", InstDB::kEncodingVexOp);   // every encoding from here on is emitted by EmitVex*/EmitAmx* (checked textually by the python part)
+  { const InstDB::InstInfo& gi = InstDB::_inst_info_table[Inst::kIdVgatherdps];   // the gather instruction of the VEX/EVEX + VSIB path model
+    dump_const("vgatherdps_id", Inst::kIdVgatherdps);
+    dump_const("vgatherdps_has_vex", uint32_t(gi.common_info().has_flag(InstDB::InstFlags::kVex)));
+    dump_const("vgatherdps_prefer_evex", uint32_t(gi.common_info().prefer_evex()));
+    dump_const("vgatherdps_vsib", uint32_t(gi.common_info().has_flag(InstDB::InstFlags::kVsib))); }
+  dump_const("cdshl_shift", Opcode::kCDSHL_Shift);
+  dump_const("cdshl_mask", Opcode::kCDSHL_Mask);
+  dump_const("cdtt_shift", Opcode::kCDTT_Shift);
+  dump_const("w_shift", Opcode::kW_Shift);
+  dump_const("ll_mask", Opcode::kLL_Mask);
+  dump_const("mm_mask", Opcode::kMM_Mask);
+  dump_const("reg_type_mask", uint32_t(RegType::kMask));
+  dump_const("encoding_x86_rot", InstDB::kEncodingX86Rot);
+  dump_const("pp_shift", Opcode::kPP_Shift);
+  dump_const("rex_shift", Opcode::kREX_Shift);
+  dump_const("opcode_w", Opcode::kW);
+  dump_const("opcode_pp_66", Opcode::kPP_66);
+  dump_const("opt_rex", uint32_t(InstOptions::kX86_Rex));
+  dump_const("opt_invalid_rex", uint32_t(InstOptions::kX86_InvalidRex));
+  dump_const("byte_invalid_rex", kX86ByteInvalidRex);
+  dump_const("reg_type_gp8hi", uint32_t(RegType::kGp8Hi));
   dump_const("inst_id_count", Inst::_kIdCount);
   dump_const("inst_info_table_len", sizeof(InstDB::_inst_info_table) / sizeof(InstDB::_inst_info_table[0]));
   dump_const("common_info_table_len", sizeof(InstDB::_inst_common_info_table) / sizeof(InstDB::_inst_common_info_table[0]));
@@ -123,6 +144,33 @@ int main() {
       printf(" %u:%u", unsigned(ii._encoding), unsigned(ii._encoding_data_index));
     }
     printf("\n"); }
+  // load / store addressing path (kEncodingBaseLdSt with its ldur/stur fallback kEncodingBaseRM_SImm9)
+  { size_t n = Inst::_kIdCount;
+    printf("table inst_encoding %zu", n);
+    for (size_t i = 0; i < n; i++) printf(" %u", unsigned(InstDB::_inst_info_table[i]._encoding));
+    printf("\ntable inst_encoding_data_index %zu", n);
+    for (size_t i = 0; i < n; i++) printf(" %u", unsigned(InstDB::_inst_info_table[i]._encoding_data_index));
+    printf("\n"); }
+#define DUMP_FIELD(NAME, TABLE, EXPR) { size_t n = sizeof(InstDB::EncodingData::TABLE) / sizeof(InstDB::EncodingData::TABLE[0]); \
+    printf("table " NAME " %zu", n); for (size_t i = 0; i < n; i++) { const auto& r = InstDB::EncodingData::TABLE[i]; printf(" %u", unsigned(EXPR)); } printf("\n"); }
+  DUMP_FIELD("ldst_reg_type", baseLdSt, r.reg_type)
+  DUMP_FIELD("ldst_u_offset_shift", baseLdSt, r.u_offset_shift)
+  DUMP_FIELD("ldst_literal_op", baseLdSt, r.literal_op)
+  DUMP_FIELD("ldst_u_alt_inst_id", baseLdSt, r.u_alt_inst_id)
+  DUMP_FIELD("simm9_reg_type", baseRM_SImm9, r.reg_type)
+  DUMP_FIELD("simm9_reg_hi_id", baseRM_SImm9, r.reg_hi_id)
+  DUMP_FIELD("simm9_imm_shift", baseRM_SImm9, r.imm_shift)
+  DUMP_FIELD("simm9_pre_post_op", baseRM_SImm9, r.pre_post_op())
+#undef DUMP_FIELD
+  dump_const("encoding_base_ldst", InstDB::kEncodingBaseLdSt);
+  dump_const("encoding_base_rm_simm9", InstDB::kEncodingBaseRM_SImm9);
+  dump_const("reg_type_label_tag", uint32_t(RegType::kLabelTag));
+  dump_const("reg_type_gp32", uint32_t(RegType::kGp32));
+  dump_const("reg_type_gp64", uint32_t(RegType::kGp64));
+  dump_const("id_zr", Gp::kIdZr);
+  dump_const("zr", kZR);
+  dump_const("mem_shift_op_max", Mem::kSignatureMemShiftOpMask >> Mem::kSignatureMemShiftOpShift);
+  dump_const("mem_shift_value_max", Mem::kSignatureMemShiftValueMask >> Mem::kSignatureMemShiftValueShift);
 #endif
   return 0;
 }
